@@ -189,6 +189,10 @@ def slot_rules(ctx):
 def run(ctx):
     ctx.attempt(csr_assembly_rule, ctx)
     ctx.attempt(pattern_structure_rule, ctx)
+    from ..shared import memo_result_escape_rule as _memo_result_escape_rule
+
+    # 'a later assembly that reuses the cached sparsity pattern': the pattern is not reachable (writable) through a returned matrix
+    ctx.attempt(_memo_result_escape_rule, ctx, "R3.12", lambda f: f.qualname.startswith("EasyFEA."), 20)
     from . import c14 as _c14
 
     # 'whether it is the first assembly or a later one': a later request returns the matrices of the current state
